@@ -46,7 +46,8 @@ CONSTANTS
   MReimpose,   \* TRUE: terminal value re-imposed after the Euler step [candidate repair]; FALSE [pinned code]
   MMask,       \* TRUE [code]: refresh rewrites free rows only; FALSE: mutant (design canary)
   MBothHalves, \* TRUE [code]: both the U and the conj(U) entries are rewritten; FALSE: mutant
-  MFreshLinks  \* TRUE [code]: link variables recomputed on every call; FALSE: mutant (cached from first refresh)
+  MFreshLinks, \* TRUE [code]: link variables recomputed on every call; FALSE: mutant (cached from first refresh)
+  MFixPsi      \* TRUE [code]: rows are pinned only when fix_psi; FALSE: mutant (fix_psi ignored)
 
 -----------------------------------------------------------------------------
 (* Gaussian integers *)
@@ -168,15 +169,16 @@ vars == <<cfg, opsvars, hist, stepvars>>
 M == InstData[cfg.inst]
 FixedSites == IF cfg.mode = "none" THEN {} ELSE M.term      \* MeshOperators.fixed_sites
 FixPsi == cfg.mode # "disabled"                               \* MeshOperators.fix_psi
-Eff == IF FixPsi THEN FixedSites ELSE {}                      \* the rows that are pinned
+Eff == IF FixPsi THEN FixedSites ELSE {}                      \* the rows that are to be pinned (property)
+BuildFixed == IF MFixPsi THEN Eff ELSE FixedSites             \* the rows the build pins (mechanism)
 
 (* ---- the cache ---- *)
 Build(q) ==
   /\ ~built
   /\ built' = TRUE
-  /\ lap' = BuildLap(M, q, Eff)
+  /\ lap' = BuildLap(M, q, BuildFixed)
   /\ grad' = BuildGrad(M, q)
-  /\ freeRows' = FreeRowsOf(M, Eff)
+  /\ freeRows' = FreeRowsOf(M, BuildFixed)
   /\ linkQ' = q
   /\ firstQ' = firstQ
   /\ calls' = calls + 1
@@ -184,7 +186,7 @@ Build(q) ==
 Refresh(q) ==
   /\ built
   /\ LET qq == IF MFreshLinks \/ firstQ = <<>> THEN q ELSE firstQ
-         mask == IF FixPsi /\ MMask THEN freeRows ELSE [k \in 1..2 * NE(M) |-> TRUE]
+         mask == IF (FixPsi \/ ~MFixPsi) /\ MMask THEN freeRows ELSE [k \in 1..2 * NE(M) |-> TRUE]
      IN /\ lap' = RefreshLap(M, lap, qq, mask)
         /\ grad' = RefreshGrad(M, grad, qq)
   /\ linkQ' = q
